@@ -7,6 +7,7 @@ binary with the vst stage helper under a watchdog and is judged by bytes / check
 last stage, start counts, exit status and live processes at return; (B) a sample runs under strace
 and is validated by TraceFds."""
 import json
+import os
 import random
 
 from common import Report, ToolError, check_action_coverage, log, run_cases, run_tlc, std_main
@@ -194,6 +195,43 @@ def runner(rep, tier, seed, replay):
         if res.get("timed_out") or len(mk) != 1:
             rep.violation("hang/late-pipe-failure", "`%s` did not get past the pipeline (markers %d, stderr %s)" % (j["text"], len(mk), res.get("stderr", "")[-200:]),
                           {"scenario": {"latefail": True}, "text": j["text"], "status": res.get("status"), "stderr": res.get("stderr", "")[-300:]}, feat)
+    # interactive: every stage of a foreground pipeline is killed at the same instant (Ctrl-C) - the status is the last stage's
+    # (130), with the shell reaping by polling and with its SIGCHLD handler (CICADA_ENABLE_SIG_HANDLER=1)
+    def ctrlc_status(handler):
+        import ptydrv
+        import time as _t
+        try:
+            ses = ptydrv.LineSession(env={"CICADA_ENABLE_SIG_HANDLER": "1"} if handler else None)
+        except ptydrv.Unsettled as e:
+            return {"unsettled": str(e)}
+        try:
+            os.write(ses.fd, b"vst a mode=none,linger=30000 | vst b mode=none,linger=30000 | vst c mode=none,linger=30000\r")
+            t0 = _t.time()
+            while _t.time() - t0 < 8 and sum(1 for r in ses.log() if r.get("h") == "st" and r.get("ev") == "start") < 3:
+                ses.read_some(0.05)
+            ses.read_some(0.2)
+            os.write(ses.fd, b"\x03")
+            ok, _ = ses.settle(8.0)
+            ok2, _ = ses.send("vpa __st $?\r", timeout=8)
+            st = [r["argv"][1] for r in ses.log() if r.get("h") == "pa" and r.get("argv") and r["argv"][0] == "__st" and len(r["argv"]) > 1]
+            if not st:
+                return {"unsettled": "no status probe"}
+            return {"status": st[0]}
+        finally:
+            ses.close()
+    from concurrent.futures import ThreadPoolExecutor as _TPE
+    plans = [False, True] * (4 if tier == "quick" else 20)
+    with _TPE(max_workers=4) as ex:
+        outs = list(ex.map(ctrlc_status, plans))
+    for handler, o in zip(plans, outs):
+        if "unsettled" in o:
+            continue
+        rep.cov["evaluations"] += 1
+        if o["status"] != "130":
+            rep.violation("status/ctrl-c", "a three-stage foreground pipeline ended by Ctrl-C (%s): $? is %s, the last stage died of SIGINT (130)"
+                          % ("SIGCHLD handler enabled" if handler else "polling", o["status"]),
+                          {"scenario": {"ctrlc": True, "handler": handler}, "status": o["status"]},
+                          {"n": 3, "kinds": ["ctrl-c"], "payload": "none", "exit": 130, "entry": "prompt", "handler": handler})
     # a stage that is stopped and continued from outside while the pipeline runs has not terminated: the shell resumes only
     # after it has really ended, with its status (controller stage: stop the last / the first stage, wait until it is stopped,
     # continue it, exit; the other stage goes on for a while, leaves a marker and exits 7 / 0)
